@@ -88,14 +88,14 @@ theorem serTx_false (t : Tx) (h : TxRange t) : serTx t false = .ok (Spec.Wire.tx
 theorem serTx_true (t : Tx) (h : TxRange t) : serTx t true = .ok (Spec.Wire.txBytes t) := by
   obtain ⟨h1, h2, h3, h4, h5, h6, h7, h8, h9⟩ := h
   by_cases hw : witIsNull t.wit = true
-  · simp [serTx, Spec.Wire.txBytes, Tx.hasWitness, hw, Spec.Wire.txLegacy,
+  · simp [serTx, Spec.Wire.txBytes, Tx.hasWitness_eq_not_witIsNull, hw, Spec.Wire.txLegacy,
       packI_ok 4 t.nVersion (by simpa using ⟨h1, h2⟩),
       serVector_ok serTxIn Spec.Wire.txIn t.vin h3 (fun i hi => serTxIn_ok i (h5 i hi)),
       serVector_ok serTxOut Spec.Wire.txOut t.vout h4 (fun o ho => serTxOut_ok o (h6 o ho)),
       packU_ok 4 t.nLockTime (by omega), bind, Except.bind, pure, Except.pure, List.append_assoc]
   · have hw' : witIsNull t.wit = false := by simpa using hw
     have h7' : ¬ (t.wit.length > t.vin.length) := by omega
-    simp [serTx, Spec.Wire.txBytes, Tx.hasWitness, hw', Spec.Wire.txExtended, h7',
+    simp [serTx, Spec.Wire.txBytes, Tx.hasWitness_eq_not_witIsNull, hw', Spec.Wire.txExtended, h7',
       packI_ok 4 t.nVersion (by simpa using ⟨h1, h2⟩),
       serVector_ok serTxIn Spec.Wire.txIn t.vin h3 (fun i hi => serTxIn_ok i (h5 i hi)),
       serVector_ok serTxOut Spec.Wire.txOut t.vout h4 (fun o ho => serTxOut_ok o (h6 o ho)),
@@ -109,7 +109,7 @@ theorem strip_range (t : Tx) (h : TxRange t) : TxRange t.strip := by
 /-- `CTransaction(vin, vout, nLockTime, nVersion).serialize()` -/
 theorem serTx_strip (t : Tx) (h : TxRange t) : serTx t.strip true = .ok (Spec.Wire.txLegacy t) := by
   rw [serTx_true _ (strip_range t h)]
-  simp [Spec.Wire.txBytes, Tx.hasWitness, Tx.strip, witIsNull, Spec.Wire.txLegacy]
+  simp [Spec.Wire.txBytes, Tx.hasWitness_eq_not_witIsNull, Tx.strip, witIsNull, Spec.Wire.txLegacy]
 
 theorem serHeader_ok (h : Header) (hh : Spec.Wire.WFHeader h) : serHeader h = .ok (Spec.Wire.header h) := by
   obtain ⟨h1, h2, h3, h4, h5, h6, h7⟩ := hh
